@@ -329,6 +329,13 @@ pub fn run_script(s: &Script) -> Option<Vec<Value>> {
         let mut m = base_event("reset");
         m.insert("trace".into(), json!(s.id));
         m.insert("cfgs".into(), json!({ "c": s.cfg }));
+        m.insert(
+            "metas".into(),
+            json!({"c": {"fixture": "c", "cacheName": "c", "kind": s.cfg.flavour, "isResult": false,
+                         "hasCif": false, "hasInv": false, "stats": true, "tags": [], "events": [],
+                         "deps": [], "warm": true}}),
+        );
+        m.insert("pmetas".into(), json!({}));
         m.insert("sts".into(), sts1("c", &eng.snapshot()));
         out.push(Value::Object(m));
     }
